@@ -690,3 +690,92 @@ def memo_1(ctx, rep):
                    'the entry computed for the first one' % (bad[1], bad[2], case, bad[1]) if bad else '',
                    reason='key covers every parameter the value depends on (%d case(s))' % len(worlds))
     rep.minimum('MEMO-1', 2, 'the token-collection memo and the grammar memo')
+
+
+# ---------------------------------------------------------------------------
+# EFF-6: no memo hands the same mutable object to several callers
+# ---------------------------------------------------------------------------
+MEMO_WRAPPERS = {'lru_cache', 'functools.lru_cache', 'cache', 'functools.cache', 'cached_property', 'functools.cached_property'}
+LIST_RETURNING = {'split', 'rsplit', 'splitlines', 'findall', 'readlines', 'copy', 'sorted', 'list', 'dict', 'set',
+                  'bytearray', 'partition_list'}
+
+
+def _mutable_result(ctx, mod, callee):
+    """reason when calling ``callee`` (an expression or a function node) yields a fresh mutable container"""
+    if isinstance(callee, (ast.FunctionDef, ast.AsyncFunctionDef)):
+        for n in walk_own(callee):
+            if isinstance(n, ast.Return) and n.value is not None:
+                v = n.value
+                if isinstance(v, (ast.List, ast.ListComp, ast.Dict, ast.DictComp, ast.Set, ast.SetComp)):
+                    return 'returns a %s' % type(v).__name__.lower()
+                if isinstance(v, ast.Call):
+                    name = norm(v.func).split('.')[-1]
+                    if name in LIST_RETURNING:
+                        return 'returns the result of %s(...)' % norm(v.func)
+                if isinstance(v, ast.Name):
+                    for a in walk_own(callee):
+                        if isinstance(a, ast.Assign) and any(isinstance(t, ast.Name) and t.id == v.id for t in a.targets) \
+                                and isinstance(a.value, (ast.List, ast.ListComp, ast.Dict, ast.DictComp, ast.Set, ast.SetComp)):
+                            return 'returns the %s built in %s' % (type(a.value).__name__.lower(), v.id)
+            if isinstance(n, (ast.Yield, ast.YieldFrom)):
+                return 'is a generator (the cached generator object is exhausted by its first consumer)'
+        return None
+    if isinstance(callee, ast.Attribute) and callee.attr in LIST_RETURNING:
+        return 'is %s, which returns a new list' % norm(callee)
+    if isinstance(callee, ast.Name):
+        if callee.id in LIST_RETURNING:
+            return 'is %s' % callee.id
+        for v in mod.globals.get(callee.id, []) or []:
+            if isinstance(v, (ast.FunctionDef, ast.AsyncFunctionDef)):
+                return _mutable_result(ctx, mod, v)
+        fn = mod.funcs.get(callee.id)
+        if fn is not None:
+            return _mutable_result(ctx, mod, fn.node)
+    return None
+
+
+def eff_6(ctx, rep):
+    rep.rule('EFF-6', 'no memoising wrapper (functools.lru_cache / cache / cached_property) is put around a callable whose '
+                      'result is a mutable container or a generator: every caller would receive the same object, and a '
+                      'caller that edits its result changes what the next caller gets')
+    n = 0
+    for rel in sorted(ctx.prog.mods):
+        mod = ctx.prog.mods[rel]
+        def memo_name(e):
+            if isinstance(e, ast.Call):
+                return memo_name(e.func)
+            s = norm(e)
+            if s in MEMO_WRAPPERS:
+                return s
+            imp = mod.imports.get(s.split('.')[0])
+            if imp and imp[0] == 'obj' and imp[1] == 'functools' and imp[2] in ('lru_cache', 'cache', 'cached_property'):
+                return 'functools.' + imp[2]
+            return None
+        for node in ast.walk(mod.tree):
+            if isinstance(node, (ast.FunctionDef, ast.AsyncFunctionDef)):
+                for d in node.decorator_list:
+                    w = memo_name(d)
+                    if w:
+                        n += 1
+                        why = _mutable_result(ctx, mod, node)
+                        rep.ob('EFF-6', mod.rel, node.name, '@%s def %s' % (norm(d), node.name), why is None,
+                               '%s memoises %s, which %s' % (w, node.name, why))
+            elif isinstance(node, ast.Call) and isinstance(node.func, ast.Call) and memo_name(node.func) and node.args:
+                # lru_cache(maxsize=...)(callable)
+                n += 1
+                why = _mutable_result(ctx, mod, node.args[0])
+                rep.ob('EFF-6', mod.rel, '<module>', norm(node), why is None,
+                       '%s memoises %s, which %s' % (memo_name(node.func), norm(node.args[0]), why))
+            elif isinstance(node, ast.Call) and not isinstance(node.func, ast.Call) and memo_name(node.func) and node.args \
+                    and not node.keywords and isinstance(node.args[0], (ast.Name, ast.Attribute)):
+                par = getattr(node, '_parent', None)
+                if isinstance(par, ast.Call) and par.func is node:
+                    continue
+                # lru_cache(callable)
+                n += 1
+                why = _mutable_result(ctx, mod, node.args[0])
+                rep.ob('EFF-6', mod.rel, '<module>', norm(node), why is None,
+                       '%s memoises %s, which %s' % (memo_name(node.func), norm(node.args[0]), why))
+    rep.stat('memo_wrappers_seen', n)
+    rep.ob('EFF-6', 'parso', '<package>', 'memoising wrappers in the package: %d' % n, True,
+           reason='every one of them wraps a callable with an immutable result' if n else 'none present')
